@@ -10,7 +10,9 @@ PExact == [kind |-> "exact", l |-> 1, t |-> 0, r |-> 2, b |-> 1]
 PAbs == [kind |-> "aligned", w |-> 6, h |-> 4, ha |-> 1, va |-> 1]
 PRel == [kind |-> "aligned", w |-> 0, h |-> -2, ha |-> 2, va |-> 0]
 PadsAll == {NoPad, PExact, PAbs, PRel}
-PadsTwo == {NoPad, PAbs}
+PAbsR == [kind |-> "aligned", w |-> 6, h |-> 4, ha |-> 2, va |-> 2]   \* same padded size as PAbs
+PExactR == [kind |-> "exact", l |-> 2, t |-> 1, r |-> 1, b |-> 0]       \* same padded size as PExact
+PadsTwo == {NoPad, PAbs, PAbsR}
 PadsEx == {NoPad, PExact}
 Offs2 == -3..3
 Offs3 == -4..4
